@@ -180,6 +180,13 @@ def run(chk, P):
     from rules import c09
     c09.r09_8(common.Proxy(chk, 'R10.5', only=lambda fn, cons: cons.startswith('serialnos-')), P, E)
     chk.floor('R10.5', 2)
+    from rules import pagestate
+    pagestate.page_once(chk, P, E, 'R10.6')
+    chk.floor('R10.6', 6)
+    from rules import c20
+    chk.rule('R10.7', 'streaming and seekable decoding apply the same half-rate setting to every link (same obligations as R20.8)')
+    c20.r20_8(common.Proxy(chk, 'R10.7'), P)
+    chk.floor('R10.7', 1)
     chk.trusted += ['clang 14 front end', 'K3 effect analysis', 'call graph']
     return ('Path and call-graph rules decide the structural conditions under which delivery cannot matter: short reads commit '
             'exactly what arrived, the caller\'s length clamps before anything is consumed or filtered, and every access mode '
